@@ -166,14 +166,14 @@ def w_expr(ctx, expr, disk, game):
     """-> (fld, mem, cast)"""
     e = nows(expr)
     checked = False
-    m = re.fullmatch(r'fit_header_field\(emitter,"[^"]*",(.+)\)\?', e)
+    m = re.fullmatch(r'(?:llir::)?fit_header_field\(emitter,"[^"]*",(.+)\)\?', e)
     if m:
         checked = True; e = m.group(1)
     m = re.fullmatch(r'matchself\.game\{Game::Th06=>([^,]+),_=>(.+?),?\}', e)
     if m:
         e = m.group(1) if game == 'th06' else m.group(2)
-        if e.startswith('fit_header_field('):
-            mm = re.fullmatch(r'fit_header_field\(emitter,"[^"]*",(.+)\)\?', e)
+        if 'fit_header_field(' in e:
+            mm = re.fullmatch(r'(?:llir::)?fit_header_field\(emitter,"[^"]*",(.+)\)\?', e)
             if mm: checked = True; e = mm.group(1)
     ascast = None
     m = re.fullmatch(r'(.+?)as(_|i8|u8|i16|u16|i32|u32|usize|u64)', e)
@@ -207,7 +207,7 @@ def w_expr(ctx, expr, disk, game):
     return (fld, mem, 'Checked' if checked else 'AsCast')
 
 def parse_write(ctx, body, game, hdr):
-    fields = []; fixed = None; args_seen = False; guard = False
+    fields = []; fixed = None; args_seen = False; guard = None; fixed_diag = False
     for st in split_stmts(body):
         s = nows(st)
         if s in ('Ok(())',): continue
@@ -226,12 +226,22 @@ def parse_write(ctx, body, game, hdr):
         m = re.fullmatch(r'assert_eq!\(instr\.args_blob\.len\(\),(\d+)\)', s)
         if m:
             fixed = int(m.group(1)); continue
-        if re.fullmatch(r'reject_end_marker_lookalike\(emitter,.*\)\?', s):
-            guard = True; continue
+        m = re.fullmatch(r'ifinstr\.args_blob\.len\(\)!=(\d+)\{returnErr\(emitter(\.as_sized\(\))?\.emit\(error!\(.*\)\)\);?\}', s)
+        if m:
+            fixed = int(m.group(1)); fixed_diag = True; continue
+        m = re.fullmatch(r'(?:llir::)?reject_end_marker_lookalike\(emitter,(.*)\)\?', s)
+        if m and not fields:
+            guard = []
+            for term in m.group(1).split('&&'):
+                mm = re.fullmatch(r'instr\.(time|opcode|param_mask|difficulty|pop|arg_count|extra_arg\.unwrap_or\(0\))==(.+)', term)
+                if not mm or parse_int(mm.group(2)) is None: raise Unrec('end-marker guard term ' + term)
+                k = mm.group(1).replace('.unwrap_or(0)', '')
+                guard.append((ctx.FLD[k], cast(ctx.field_ty[k], parse_int(mm.group(2)))))
+            continue
         raise Unrec('write_instr statement ' + s[:120])
     if not args_seen:
         raise Unrec('write_instr never writes args_blob')
-    return fields, fixed, guard
+    return fields, fixed, guard, fixed_diag
 
 def parse_twrite(ctx, body, hdr):
     out = []
@@ -266,7 +276,7 @@ def parse_read(ctx, body, game, hdr):
     argrule = None; args_read = False
     tkind = 'TNone'; tafter = 0; tafter_args = False; tcond_src = None
     struct_src = None
-    fixed_assert = None
+    fixed_assert = None; fixed_rdiag = False
     derived = {}        # args_size -> ('checked', sizevar)
     stmts = split_stmts(body)
     def vtype(cast_to, disk):
@@ -298,6 +308,9 @@ def parse_read(ctx, body, game, hdr):
         m = re.fullmatch(r'assert_eq!\((\w+),(\d+)\)', s)
         if m:
             fixed_assert = (m.group(1), int(m.group(2))); continue
+        m = re.fullmatch(r'if(\w+)!=(\d+)\{returnErr\(emitter(\.as_sized\(\))?\.emit\(error!\(.*\)\)\);?\}', s)
+        if m:
+            fixed_assert = (m.group(1), int(m.group(2))); fixed_rdiag = True; continue
         m = re.fullmatch(r'letargs_blob=f\.read_byte_vec\((.+)\)\?', s)
         if m:
             e = m.group(1); args_read = True
@@ -402,7 +415,7 @@ def parse_read(ctx, body, game, hdr):
             if cast(r[4], v) != v or cast(r[1], v) != v: raise Unrec('end-marker literal %s out of range of %s/%s' % (b, r[4], r[1]))
             if BITS[r[2]] < BITS[r[1]]: raise Unrec('end-marker test on %s after a narrowing conversion' % a)
             tcond.append((r[0], cast(r[2], v)))
-    return [(r[0], r[1], r[2]) for r in rfields], eof_first, argrule[0], tkind, tafter, tafter_args, tcond
+    return [(r[0], r[1], r[2]) for r in rfields], eof_first, argrule[0], tkind, tafter, tafter_args, tcond, fixed_rdiag
 
 # ---------------------------------------------------------------------------------------------
 # framing text the model was written against (whitespace-free)
@@ -463,7 +476,7 @@ def coq_instr(d):
     return '(mkInstr (%d) (%d) (%d) [] (%d) (%d) %s (%d))' % (d['time'], d['opcode'], d['param_mask'], d['difficulty'], d['pop'], ex, d['arg_count'])
 
 def unrec_fmt(name):
-    return ('Definition gen_%s : fmt := mkFmt 0 [] [] false ArgsByLen TNone 0 false [] [] false gen_default.\n' % name)
+    return ('Definition gen_%s : fmt := mkFmt 0 [] [] false ArgsByLen TNone 0 false [] [] false false false gen_default.\n' % name)
 
 def main(repo, out):
     ctx = Ctx(repo)
@@ -491,8 +504,10 @@ def main(repo, out):
                 if has_term is None: raise Unrec('has_terminal_instr')
                 wb = fn_body(impl, 'write_instr'); rb = fn_body(impl, 'read_instr'); tb = fn_body(impl, 'write_terminal_instr')
                 if wb is None or rb is None or tb is None: raise Unrec('write_instr/read_instr/write_terminal_instr not found')
-                wf, wfixed, guard = parse_write(ctx, wb, game, hdr)
-                rf, eof_first, argrule, tkind, tafter, tafter_args, tcond = parse_read(ctx, rb, game, hdr)
+                wf, wfixed, guard, wdiag = parse_write(ctx, wb, game, hdr)
+                rf, eof_first, argrule, tkind, tafter, tafter_args, tcond, rdiag = parse_read(ctx, rb, game, hdr)
+                if guard is not None and sorted(guard) != sorted(tcond):
+                    raise Unrec('end-marker guard %s differs from the reader\'s test %s' % (guard, tcond))
                 if wfixed is not None and argrule != 'ArgsFixed %d' % wfixed:
                     raise Unrec('writer asserts %d argument bytes, reader uses %s' % (wfixed, argrule))
                 if argrule.startswith('ArgsFixed') and wfixed is None:
@@ -504,14 +519,15 @@ def main(repo, out):
                     tw = []
                     if tkind != 'TNone': raise Unrec('no terminal instr but read_instr tests for one')
                     if 'panic!' not in tb: raise Unrec('write_terminal_instr of a format without terminal does not panic')
-                text += 'Definition gen_%s : fmt := mkFmt %d\n  [%s]\n  [%s]\n  %s %s %s %d %s [%s]\n  [%s] %s gen_default.\n' % (
+                text += 'Definition gen_%s : fmt := mkFmt %d\n  [%s]\n  [%s]\n  %s %s %s %d %s [%s]\n  [%s] %s %s %s gen_default.\n' % (
                     vname, hdr,
                     '; '.join('W %s %s %s %s' % f for f in wf),
                     '; '.join('R %s %s %s' % f for f in rf),
                     'true' if eof_first else 'false', '(%s)' % argrule if ' ' in argrule else argrule, tkind, tafter,
                     'true' if tafter_args else 'false',
                     '; '.join('(%s, %d)' % c for c in tcond),
-                    '; '.join('(%s, %d)' % t for t in tw), 'true' if guard else 'false')
+                    '; '.join('(%s, %d)' % t for t in tw), 'true' if guard is not None else 'false',
+                    'true' if wdiag else 'false', 'true' if rdiag else 'false')
             except Unrec as e:
                 ctx.notes.append('unrecognised: %s (%s): %s' % (vname, ty, e))
                 text += unrec_fmt(vname)
